@@ -1,5 +1,6 @@
 import LentilVerif.Model.Basic
 import LentilVerif.Gen.Units
+import LentilVerif.Gen.DetectorIdx
 /-! Executable model of the detector chain of `lentil/detector.py` (`collect_charge`, `collect_charge_bayer`, `qe_asarray`,
 `format_bayer_string`, `adc`), generic in the value type `K`. Instantiated at core `Rat` by the driver
 (`Driver/Ops/C16.lean`, exact arithmetic on dyadic test data) and at an arbitrary ordered field with a floor in
@@ -105,10 +106,13 @@ nrow = img.shape[1] // oversample ; ncol = img.shape[2] // oversample
 m = np.tile(kernel, (nrow // kernel.shape[0], ncol // kernel.shape[1]))
 m = np.repeat(np.repeat(m, oversample, axis=0), oversample, axis=1)
 ``` -/
+def repeatAx (x : Img K) (f ax : Int) : Img K := if ax = 0 then repeat0 x f else repeat1 x f
+
+/-- built from the **regenerated** bookkeeping (`Gen.bayerTileReps`, `Gen.bayerRepeats`, tools/specs/c16.py): the tile repeat counts
+and the (factor, axis) list of the nested `np.repeat` calls are translated from the source on every run -/
 def mosaic (kern : Img K) (R C os : Int) : Img K :=
-  let nrow := R / os
-  let ncol := C / os
-  repeat1 (repeat0 (tile kern (nrow / kern.s0) (ncol / kern.s1)) os) os
+  let reps := Gen.bayerTileReps R C os kern.s0 kern.s1
+  (Gen.bayerRepeats R C os).foldl (fun m p => repeatAx m p.1 p.2) (tile kern reps.1 reps.2)
 
 /-- NumPy broadcasting of one axis: equal lengths, or one of them 1 -/
 def bcast (a b : Int) : Option Int := if a = b then some a else if a = 1 then some b else if b = 1 then some a else none
